@@ -14,7 +14,7 @@ from vt.world import World, WSpec, Abort
 ID = 'C17'
 KIND = 'explorer'
 LEVEL = 'model_checking'
-BUDGET = {'quick': 120, 'thorough': 1200}
+BUDGET = {'quick': 900, 'thorough': 10800}
 RULE = ('real pipes between simulated workers and the real Redirector on the real selector loop; all sequences of <= L '
         'worker-side events (write k bytes on stdout/stderr with k in {1, 1023, 1024, 1025, 2500}, close a channel, exit) for 1-2 '
         'workers x 2 drain disciplines (loop runs after every event / only at the end), with <= E daemon-side events (sibling '
